@@ -169,6 +169,10 @@ func (p *Parser) Parse(formatOnly bool) (*bytes.Buffer, int) {
 		wrote += n
 	}
 
+	if err := fileScanner.Err(); err != nil {
+		logger.Fatal().Err(err).Msg("failed to read input")
+	}
+
 	// now that the file was parsed, we replace all definitions
 	if len(p.variables) > 0 {
 		p.dest = expandDefinitions(p.dest, p.variables)
